@@ -62,6 +62,23 @@ mod set_f {
     }
 }
 
+mod set_g {
+    leptos_i18n::declare_locales! {
+        path: leptos_i18n,
+        default: "en",
+        locales: ["en", "pa", "pa-PK", "az", "az-IR", "az-Arab", "uz-AF", "ar-EG", "he-IL"],
+        en: { k: "x" },
+        pa: { k: "x" },
+        pa_PK: { k: "x" },
+        az: { k: "x" },
+        az_IR: { k: "x" },
+        az_Arab: { k: "x" },
+        uz_AF: { k: "x" },
+        ar_EG: { k: "x" },
+        he_IL: { k: "x" },
+    }
+}
+
 fn dir_name(d: leptos_i18n::Direction) -> &'static str {
     d.as_str()
 }
@@ -129,6 +146,7 @@ pub fn do_ident(c: &Value, w: &mut Out) {
         "D" => ident_ops::<set_d::i18n::Locale>(&id, set, &probes, w),
         "E" => ident_ops::<set_e::i18n::Locale>(&id, set, &probes, w),
         "F" => ident_ops::<set_f::i18n::Locale>(&id, set, &probes, w),
+        "G" => ident_ops::<set_g::i18n::Locale>(&id, set, &probes, w),
         other => panic!("unknown set {}", other),
     }
 }
